@@ -260,7 +260,7 @@ PROPS["C15"] = Prop(harnesses=_rl_h, functions=PROPS["C02"].functions, bounds=PR
 # C16 reconnect
 # ---------------------------------------------------------------------------
 _r16 = lambda n, what, **kw: H("verif_kani::c16::" + n, RECONNECT, what,
-    "one request, <= 6 polls with any clock advance before each; max_attempts None or 0..=2; inner outcomes symbolic (ok / reconnectable / other error), inner futures complete at a poll of the solver's choice; another request may mark the shared state connected before any poll",
+    "one request, <= 4 polls with any clock advance before each; max_attempts None or 0..=1; inner outcomes symbolic (ok / reconnectable / other error), inner futures complete at a poll of the solver's choice; another request may mark the shared state connected before any poll",
     models=("tokio", "rand"), profile="service", playback=False, mem_gb=24, timeout=2400, **kw)
 PROPS["C16"] = Prop(
     harnesses=[_r16("custom_policy_predicate_retry", "custom policy with per-attempt delays, predicate, retry on"),
@@ -268,19 +268,42 @@ PROPS["C16"] = Prop(
                _r16("fixed_policy_no_retry", "fixed policy, retry_on_reconnect off"),
                _r16("no_policy", "policy None", tiers=("thorough",))],
     functions=["tower_resilience_reconnect::service::{ReconnectService::{new,poll_ready,call},ReconnectFuture::poll}", "ReconnectConfig::should_reconnect", "ReconnectPolicy::delay_for_attempt", "ReconnectState::{mark_connected,mark_disconnected,mark_reconnecting,state}"],
-    bounds="one request, <= 6 polls, max_attempts <= 2 or unlimited (then bounded by the 6 polls), delays <= 10 s",
-    outside="exponential/jittered policies here (their delays are C14); more than 6 polls; u32 overflow of the attempt counter after 2^32 failures with unlimited attempts",
+    bounds="one request, <= 4 polls, max_attempts <= 1 or unlimited (then bounded by the 4 polls), delays <= 10 s",
+    outside="exponential/jittered policies here (their delays are C14); more than 4 polls; u32 overflow of the attempt counter after 2^32 failures with unlimited attempts",
     assumptions=["tokio::time::Sleep replaced by the virtual-clock model; Instant::now -> virtual clock", "the predicate sees InnerErr codes (only error type in the harness)"],
+)
+
+# ---------------------------------------------------------------------------
+# C18 healthcheck (selection part)
+# ---------------------------------------------------------------------------
+HC = "tower-resilience-healthcheck"
+_hc = lambda n, what, bound, **kw: H("verif_kani::c18::" + n, HC, what, bound, models=("tokio",), playback=False, **kw)
+PROPS["C18"] = Prop(
+    harnesses=[
+        _hc("first_available_n3", "first-available: first usable resource, None iff none", "3 resources, all 4^3 published status vectors", timeout=900),
+        _hc("prefer_healthy_n3", "prefer-healthy: healthy before degraded, None iff none usable", "3 resources, all status vectors", timeout=900),
+        _hc("round_robin_n3", "round-robin: only eligible, None iff none", "3 resources, any counter value", timeout=900),
+        _hc("round_robin_n2", "round-robin, 2 resources", "2 resources, any counter value", timeout=900, tiers=("thorough",)),
+        _hc("empty_list_selects_nothing", "empty resource list", "", timeout=600),
+        _hc("round_robin_successor", "round-robin: two consecutive selections return an eligible resource and its cyclic successor among the eligible ones (=> even visiting)", "3 resources, all status vectors, counter start < 2^32", timeout=1800),
+        _hc("custom_selector_sees_statuses", "custom selector receives the published statuses; its answer is returned", "3 resources", timeout=900),
+    ],
+    functions=["tower_resilience_healthcheck::selector::SelectionStrategy::select", "HealthCheckedContext::{new,status,set_status}"],
+    bounds="<= 3 resources; all status vectors; 2 consecutive round-robin selections (inductive successor property)",
+    outside="the THRESHOLD part of C18 (status flips after failure_threshold / success_threshold consecutive checks): that logic is a closure nested in two tokio::spawn calls inside "
+            "HealthCheckWrapper::start and is not reached by these harnesses; random strategy (feature `random`); more than 3 resources; wrap-around of the round-robin counter at usize::MAX",
+    assumptions=["std::hash::RandomState::new stubbed (zeroed keys; the extension map is never touched)"],
 )
 
 # ---------------------------------------------------------------------------
 # C05 retry
 # ---------------------------------------------------------------------------
 _r5 = lambda n, what, **kw: H("verif_kani::c05::" + n, RETRY, what,
-    "one request; max_attempts 0..=3 (fixed or per-request); outcome sequence of <= 3 symbolic results (ok / retryable / non-retryable error); backoff per retry any whole ms <= 10 s; budget grants symbolic per retry; polls: at every backoff one at an arbitrary instant before the deadline and one at it",
+    "one request; max_attempts 0..=3 (fixed or per-request); outcome sequence of <= 3 symbolic results (ok / retryable / non-retryable error); backoff per retry any whole ms <= 10 s; budget grants symbolic per retry; polls: one per attempt, the clock advanced by exactly the backoff in between (early polls: harness waits_full_backoff)",
     models=("tokio", "rand"), profile="service", playback=False, mem_gb=24, timeout=2400, **kw)
 PROPS["C05"] = Prop(
-    harnesses=[_r5("plain", "no predicate, no budget"), _r5("with_predicate", "retry predicate"), _r5("with_budget", "retry budget"),
+    harnesses=[_r5("waits_full_backoff", "still pending and no retry at any instant before the backoff elapsed; retry exactly when it has"),
+               _r5("plain", "no predicate, no budget"), _r5("with_predicate", "retry predicate"), _r5("with_budget", "retry budget"),
                _r5("with_budget_predicate_dynamic_max", "budget + predicate + per-request max_attempts", tiers=("thorough",))],
     functions=["tower_resilience_retry::Retry::{new,poll_ready,call}", "RetryPolicy::{should_retry,next_backoff}", "MaxAttemptsSource::get_max_attempts"],
     bounds="one request, max_attempts <= 3, <= 3 inner outcomes, backoff <= 10 s per retry",
